@@ -163,7 +163,7 @@ def request_menu(groups: list[GroupSpec], exponent: float, sign: int, boundary: 
 def menus(tier: str):
     if tier == "quick":
         return {
-            "shape": [(1, 1), (2, 1), (1, 2)],
+            "shape": [(1, 1), (2, 1), (1, 2), (1, 3)],
             "soc": [20.0, 40.0, 80.0, 90.0],
             "cap": [1000.0, 3000.0],
             "bexcl": [0.0, 100.0, 300.0],
@@ -175,7 +175,7 @@ def menus(tier: str):
             "ngroups": [1, 2, 3],
         }
     return {
-        "shape": [(1, 1), (2, 1), (1, 2), (2, 2)],
+        "shape": [(1, 1), (2, 1), (1, 2), (2, 2), (1, 3)],
         "soc": [20.0, 40.0, 60.0, 80.0, 90.0],
         "cap": [1000.0, 3000.0],
         "bexcl": [0.0, 100.0, 300.0],
@@ -201,10 +201,16 @@ def group_specs(m: dict, reduced: bool = False) -> list[GroupSpec]:
     ):
         bats = [BatSpec(soc, cap, be, bi, lower_scale=ls)]
         if k == 2:
-            bats.append(BatSpec(min(95.0, soc + 15.0), 4000.0 - cap, 100.0 if be != 100.0 else 0.0, bi, lower_scale=ls))
+            # the second battery differs in SoC, capacity, exclusion AND inclusion bound (so "sum of the inclusion
+            # bounds" and "n times the largest bound" give different aggregates)
+            bats.append(BatSpec(min(95.0, soc + 15.0), 4000.0 - cap, 100.0 if be != 100.0 else 0.0, 0.6 * bi, lower_scale=ls))
         invs = [InvSpec(ie, ii, lower_scale=1.0)]
         if n == 2:
             invs.append(InvSpec(100.0 if ie != 100.0 else 50.0, 600.0))
+        if n == 3:
+            # "2s": a small first inverter without exclusion bound whose inclusion bound is below the battery's
+            # exclusion bound, next to the menu inverter (the split order "largest exclusion bound first" matters)
+            invs = [InvSpec(0.0, 250.0), InvSpec(ie, ii)]
         g = GroupSpec(tuple(bats), tuple(invs))
         if consistent([g]):
             out.append(g)
